@@ -238,6 +238,20 @@ func coseMutations() []coseMut {
 	})
 	add("ext:label-15-16", func(b *coseBuild, c *coseCtx) { csetP(b, int64(15), cMap()); csetP(b, int64(16), cTstr("application/x")) })
 	add("ext:x5chain-in-protected", func(b *coseBuild, c *coseCtx) { csetP(b, int64(33), x5chainOf(ders(c.id.chain))) })
+	add("ext:x5chain-in-protected-other-identity", func(b *coseBuild, c *coseCtx) { csetP(b, int64(33), x5chainOf(ders(c.other.chain))) })
+	add("ext:x5chain-in-protected-only", func(b *coseBuild, c *coseCtx) {
+		csetP(b, int64(33), x5chainOf(ders(c.id.chain)))
+		var u []ckv
+		for _, e := range b.Unprot {
+			if l, _ := absLabel(e.k); l != int64(33) {
+				u = append(u, e)
+			}
+		}
+		b.Unprot = u
+	})
+	add("ext:x5chain-in-protected-leaf-of-other-identity", func(b *coseBuild, c *coseCtx) {
+		csetP(b, int64(33), x5chainOf(append([][]byte{c.other.chain[0].Raw}, ders(c.id.chain[1:])...)))
+	})
 	add("ext:near-miss-labels", func(b *coseBuild, c *coseCtx) {
 		csetP(b, "io.cncf.notary.expiry ", cTstr("x"))
 		csetP(b, "IO.CNCF.NOTARY.SIGNINGSCHEME", cTstr("y"))
@@ -411,6 +425,11 @@ func coseJobBuild(j coseJob) (*coseBuild, *builtCOSE) {
 	}
 	if strings.HasPrefix(j.keyID, "rsa") {
 		otherKey = strings.Replace(j.keyID, "-0", "-1", 1)
+		switch otherKey {
+		case "rsa1024-1", "rsa2048-1", "rsa3072-1", "rsa4096-1":
+		default:
+			otherKey = "rsa2048-1" // the odd sizes have one committed key each
+		}
 	}
 	ctx := &coseCtx{id: id, scheme: j.scheme, st: baseTime().Add(-time.Minute), other: getIdentity(otherKey, 2)}
 	var exp *time.Time
@@ -491,6 +510,11 @@ func submitCose(r *Runner, b *coseBuild, built *builtCOSE, class, id string, tag
 	r.Submit(c)
 }
 
+// identityMut: the mutation changes which certificates the envelope carries, or where
+func identityMut(name string) bool {
+	return strings.HasPrefix(name, "x5c:") || strings.Contains(name, "x5chain") || strings.HasPrefix(name, "sig:other") || strings.HasPrefix(name, "sig:by-")
+}
+
 func genCoseRead(r *Runner, prop string) {
 	quick := tier() == "quick"
 	muts := coseMutations()
@@ -510,7 +534,7 @@ func genCoseRead(r *Runner, prop string) {
 		}
 	}
 	// unsupported leaf keys
-	for _, k := range []string{"rsa1024-0", "ec224-0", "ed-0"} {
+	for _, k := range []string{"rsa1024-0", "rsa2056-0", "rsa2560-0", "rsa3200-0", "rsa5120-0", "ec224-0", "ed-0"} {
 		jobs = append(jobs, coseJob{label: "unsupported-leaf-key", keyID: k, n: 2, scheme: "notary.x509"})
 	}
 	for _, m := range muts {
@@ -528,7 +552,9 @@ func genCoseRead(r *Runner, prop string) {
 			if i >= jx {
 				continue
 			}
-			if quick && rng.Intn(3) != 0 {
+			// pairs that touch where the certificates come from are never sampled away: who signed is what C01 and C02 are about
+			must := identityMut(a.name) || identityMut(b.name)
+			if quick && !must && rng.Intn(3) != 0 {
 				continue
 			}
 			jobs = append(jobs, coseJob{label: "pair", keyID: "ec256-0", n: 2, scheme: schemes[rng.Intn(2)], muts: []coseMut{a, b}, ext: rng.Intn(3), expiry: rng.Intn(3) == 0})
@@ -555,7 +581,8 @@ func genCoseRead(r *Runner, prop string) {
 
 // C02: the complete matrix (leaf key kind) x (declared algorithm) x both formats
 func genC02(r *Runner) {
-	keys := []string{"rsa1024-0", "rsa2048-0", "rsa3072-0", "rsa4096-0", "ec224-0", "ec256-0", "ec384-0", "ec521-0", "ed-0"}
+	// the six approved keys, keys below the table, and RSA sizes between and above the table's rows (2056 = a 2049..2056-bit modulus)
+	keys := []string{"rsa1024-0", "rsa2048-0", "rsa2056-0", "rsa2560-0", "rsa3072-0", "rsa3200-0", "rsa4096-0", "rsa5120-0", "ec224-0", "ec256-0", "ec384-0", "ec521-0", "ed-0"}
 	var jj []jwsJob
 	var cj []coseJob
 	jm := jwsMutations()
